@@ -274,7 +274,7 @@ type Cluster struct {
 	// TruncateAtMaxBytes: a partition's record set is cut at partition_max_bytes
 	// in the middle of a batch (what brokers do; consumers drop the partial tail)
 	TruncateAtMaxBytes     bool
-	ListOffsetsErr         func(topic string, part int32) int16
+	ListOffsetsErr         func(topic string, part int32, ts int64) int16
 	GroupInitialDelay      time.Duration
 	MinSession, MaxSession time.Duration
 	CommitErr              func(g *Group, topic string, part int32) int16
